@@ -272,7 +272,7 @@ PARTS = {"steps": (lambda: table_st(False), run_steps), "stat": (lambda: table_s
 def plan(tier):
     if tier == "quick":
         return [{"part": "steps", "shards": 8, "budget": {"n_examples": 1500}}, {"part": "stat", "shards": 8, "budget": {"n_examples": 30}}]
-    return [{"part": "steps", "shards": 8, "budget": {"n_examples": 10000}}, {"part": "stat", "shards": 8, "budget": {"n_examples": 200}}]
+    return [{"part": "steps", "shards": 8, "budget": {"n_examples": 30000}}, {"part": "stat", "shards": 8, "budget": {"n_examples": 600}}]
 
 
 def run_part(part, seed, shard, nshards, budget):
